@@ -396,7 +396,7 @@ pub fn run(tier: Tier) -> Report {
         Tier::Quick => ["GRS80", "intl", "bessel", "clrk66", "mprts", "sphere", "WGS84", "krass"].iter().map(|s| s.to_string()).collect(),
         Tier::Thorough => geodesy::verif::ellipsoid_table().iter().map(|e| e[0].to_string()).filter(|n| n != "unitsphere").collect(),
     };
-    names.extend(["6378137,150", "6378137,300", "6378137,1000", "6400000,200"].iter().map(|s| s.to_string()));
+    names.extend(["6378137,150", "6378137,300", "6378137,1000", "6400000,200", "6370997,0"].iter().map(|s| s.to_string()));
     let step = tier.pick(5., 0.5);
     let lats = lat_lattice(tier.pick(15., 5.), 90.);
     let lons = dlon_lattice(tier.pick(60., 30.), 180.);
